@@ -9,6 +9,10 @@ CLAIMED = {
           "Seeded search over interleavings of 2-4 installers and 0-3 loaders on a fresh once-cell per run, each shimmed atomic operation a scheduling point; oracle: at most one Ok, losers get their own recorder back undropped, loads stable and never before install. Evidence, not proof.",
           "Sequentially consistent interleavings only (weak-memory publication bugs are outside this engine); recorder doubles are stubs; process-wide GLOBAL_RECORDER path is exercised by the C01 process-per-run scenario.",
           "DESIGN.md 4/C02"),
+  "C05": ("deterministic simulation (dsim): seeded schedules at atomic-operation granularity over AtomicBucket push/data_with/is_empty/clear_with incl. block hand-over, real crossbeam-epoch",
+          "Seeded search over interleavings of 2-4 threads mixing push, snapshot reads, is_empty and clears on one bucket pre-filled next to the 64-slot block boundary; every operation on write/read/tail/next and both quiescence loops is a scheduling point. Oracle over the recorded history: multiset conservation (each pushed tag delivered to exactly one clear or left for the final drain), snapshot completeness window, no fabricated/duplicate/torn value, per-block order, no double drop of values with destructors. Three genuine defects found this way were repaired (known_findings.json).",
+          "Sequentially consistent interleavings only; internals of crossbeam-epoch are single steps; leak of values with destructors is not asserted (epoch reclamation is deferred); plans using the callback-less clear() are checked for fabrication/duplication/order only.",
+          "DESIGN.md 4/C05"),
 }
 
 NOT_APPLICABLE = {
